@@ -258,7 +258,7 @@ def harnesses(tier):
     stubs = ['fakezmq (sequential, in-order delivery)', 'virtual clocks', 'scarf / OpenLineage / file logging off (DO_NOT_TRACK, log_path=False)', 'test filter class with injection hooks']
     assume = ['one filter at a time; neighbours are represented by the messages on its links (composition over a pipeline: the message this check requires to be sent is the message it feeds to the neighbour)',
               'LOOP_EXC default (exceptions end the loop)']
-    return [
+    hs = [
         Harness('c08.lifecycle', lifecycle(), twin=lifecycle(planted=True),
                 bounds={'injection': 'exit() / exception / stop event at init (before communication is set up), setup, process#1, process#2, mq.send#1, mq.recv#2, shutdown; exit message clean/error from upstream/downstream; external stop',
                         'policies': '4 x 4 prop/obey', 'topology position': 'head / middle / sink', 'frames': 3},
@@ -267,6 +267,12 @@ def harnesses(tier):
                 bounds={'forms': "5, 5.0, '0:05', '@<iso time>'", 'processing time per iteration': 'symbolic 0-4 s (virtual clock)', 'iterations': '<=6'},
                 functions=fn, stubs=stubs, assumptions=assume, budget_s=600),
     ]
+    from props import s_level as SL
+    hs.append(SL.H('c08.S.chain_exit_propagation', SL.c08_pipeline('chain', {'d': (1, 99)}), twin=SL.c08_pipeline('chain', {}, {'d': 10}, planted=True),
+                   bounds={'topology': 'chain A -> B -> C, the source ends by exit() or by an exception after 2 frames', 'policies': '4 x 4 (same pair on every filter)', 'free timing (ms)': {'d': [1, 99]}}))
+    if tier != 'quick':
+        hs.append(SL.H('c08.S.rejoin_exit_propagation', SL.c08_pipeline('rejoin', {'pB': (0, 300)}), bounds={'topology': 'tee-rejoin A -> B, C -> D', 'policies': '4 x 4', 'free timing (ms)': {'pB': [0, 300]}}, budget=1800))
+    return hs
 
 
 EXPLANATION = ('bounded symbolic execution of the real Filter.run life cycle over the fake ZeroMQ: the injection point, exit kind, propagate/obey policy pair and topology '
